@@ -107,7 +107,7 @@ package stree
 //@   ensures [assumed] keys: forall k int :: {inK(result, k)} inK(result, k) <==> old(inK(root, k))
 //@   ensures [assumed] desc: forall y ref :: {inD(result, y)} inD(result, y) <==> old(inD(root, y))
 //@   ensures [assumed] reps: forall k int :: {result.rep[k]} inK(result, k) ==> result.rep[k] == old(root.rep[k])
-//@   ensures [assumed] frame: forall y *node[T] :: {y.left} {y.right} {y.X} {y.keys} {y.desc} old(allocated(y)) && !old(inD(root, y)) ==> sameNode(y)
+//@   ensures [assumed] frame: forall y *node[T] :: {y.left} {y.right} {y.X} {y.keys} {y.desc} {y.cnt} {y.rep} old(allocated(y)) && !old(inD(root, y)) ==> sameNode(y)
 //@   modifies every(root.left), every(root.right), every(root.keys), every(root.desc), every(root.cnt), every(root.rep)
 //@
 //@ func (*Tree).insert
@@ -120,7 +120,7 @@ package stree
 //@   ensures  [C01] new: (result.1 <==> nw != nil) && (nw != nil ==> fresh(nw))
 //@   ensures  [C01] reps: forall k int :: {result.0.rep[k]} k in result.0.keys ==> result.0.rep[k] == ite(k == rank(t.compare, key) && (replace || !old(inK(root, k))), key, old(root.rep[k]))
 //@   ensures  [C01] count: cntOf(result.0) == old(cntOf(root)) + ite(result.1, 1, 0) && (result.2 > 0 ==> result.2 == cntOf(result.0))
-//@   ensures  [C01] frame: forall y *node[T] :: {y.left} {y.right} {y.X} {y.keys} {y.desc} old(allocated(y)) && !old(inD(root, y)) ==> sameNode(y)
+//@   ensures  [C01] frame: forall y *node[T] :: {y.left} {y.right} {y.X} {y.keys} {y.desc} {y.cnt} {y.rep} old(allocated(y)) && !old(inD(root, y)) ==> sameNode(y)
 //@   modifies every(root.left), every(root.right), every(root.X), every(root.keys), every(root.desc), every(root.cnt), every(root.rep)
 //@   at entry: ghost nw = nil
 //@   at return 1: ghost nw = result.0
@@ -154,7 +154,7 @@ package stree
 //@   at after "root.left = ins": assert [C01] treeOK(root, t.compare)
 //@   at after "root.left = ins": assert [C01] forall k int :: {k in root.keys} k in root.keys <==> (k == rank(t.compare, key) || old(inK(root, k)))
 //@   at after "root.left = ins": assert [C01] forall y ref :: {y in root.desc} y in root.desc <==> (old(inD(root, y)) || (nw != nil && y == nw))
-//@   at after "root.left = ins": assert [C01] forall y *node[T] :: {y.left} {y.right} {y.X} {y.keys} {y.desc} old(allocated(y)) && !old(inD(root, y)) ==> sameNode(y)
+//@   at after "root.left = ins": assert [C01] forall y *node[T] :: {y.left} {y.right} {y.X} {y.keys} {y.desc} {y.cnt} {y.rep} old(allocated(y)) && !old(inD(root, y)) ==> sameNode(y)
 //@   at after "root.right = ins": assert [C01] (forall w ref :: {w in ins.desc} w in ins.desc ==> w in root.desc) && (forall k int :: {k in ins.keys} k in ins.keys ==> k in root.keys)
 //@   at after "root.right = ins": assert [C01] (forall w ref :: {w in root.left.desc} inD(root.left, w) ==> w in root.desc) && (forall k int :: {k in root.left.keys} inK(root.left, k) ==> k in root.keys)
 //@   at after "root.right = ins": assert [C01] forall z *node[T] :: {z in ins.desc} z in ins.desc ==> local(z, t.compare) && closed(z)
@@ -164,7 +164,7 @@ package stree
 //@   at after "root.right = ins": assert [C01] treeOK(root, t.compare)
 //@   at after "root.right = ins": assert [C01] forall k int :: {k in root.keys} k in root.keys <==> (k == rank(t.compare, key) || old(inK(root, k)))
 //@   at after "root.right = ins": assert [C01] forall y ref :: {y in root.desc} y in root.desc <==> (old(inD(root, y)) || (nw != nil && y == nw))
-//@   at after "root.right = ins": assert [C01] forall y *node[T] :: {y.left} {y.right} {y.X} {y.keys} {y.desc} old(allocated(y)) && !old(inD(root, y)) ==> sameNode(y)
+//@   at after "root.right = ins": assert [C01] forall y *node[T] :: {y.left} {y.right} {y.X} {y.keys} {y.desc} {y.cnt} {y.rep} old(allocated(y)) && !old(inD(root, y)) ==> sameNode(y)
 //@   call rewrite#1: cmp = t.compare
 //@   call size#1: cmp = t.compare
 //@
@@ -206,7 +206,7 @@ package stree
 //@   ensures [C01,C04] desc: forall y ref :: {inD(root.right, y)} inD(root.right, y) <==> old(y in root.right.desc) && y != result
 //@   ensures [C01,C04] reps: forall k int :: {root.right.rep[k]} inK(root.right, k) ==> root.right.rep[k] == old(root.right.rep[k])
 //@   ensures [C01,C04] top: root.left == old(root.left) && root.X == old(root.X) && root.keys == old(root.keys) && root.desc == old(root.desc) && root.cnt == old(root.cnt) && root.rep == old(root.rep) && cntOf(root.right) == old(cntOf(root.right)) - 1
-//@   ensures [C01,C04] frame: forall y *node[T] :: {y.left} {y.right} {y.X} {y.keys} {y.desc} old(allocated(y)) && !old(y in root.right.desc) && y != root ==> sameNode(y)
+//@   ensures [C01,C04] frame: forall y *node[T] :: {y.left} {y.right} {y.X} {y.keys} {y.desc} {y.cnt} {y.rep} old(allocated(y)) && !old(y in root.right.desc) && y != root ==> sameNode(y)
 //@   modifies every(root.left), every(root.right), every(root.keys), every(root.desc), every(root.cnt), every(root.rep)
 //@   at entry: ghost D0 = root.right.desc
 //@   at entry: ghost K0 = root.right.keys
@@ -232,7 +232,7 @@ package stree
 //@   ensures  [C01] reps: forall k int :: {result.0.rep[k]} inK(result.0, k) ==> result.0.rep[k] == old(n.rep[k])
 //@   ensures  [C01] count: cntOf(result.0) == old(cntOf(n)) - ite(result.1, 1, 0)
 //@   ensures  [C01] gone: (result.1 <==> gone != nil) && (gone != nil ==> n != nil && gone in old(n.desc))
-//@   ensures  [C01] frame: forall y *node[T] :: {y.left} {y.right} {y.X} {y.keys} {y.desc} old(allocated(y)) && !old(inD(n, y)) ==> sameNode(y)
+//@   ensures  [C01] frame: forall y *node[T] :: {y.left} {y.right} {y.X} {y.keys} {y.desc} {y.cnt} {y.rep} old(allocated(y)) && !old(inD(n, y)) ==> sameNode(y)
 //@   modifies every(n.left), every(n.right), every(n.X), every(n.keys), every(n.desc), every(n.cnt), every(n.rep)
 //@   at entry: ghost gone = nil
 //@   at after "n.left, ok = n.left.remove(key, compare)": ghost gone = remove_gone
@@ -371,7 +371,7 @@ package stree
 //@   ensures  [C01] shape: treeOK(result, cmp)
 //@   ensures  [C01] same: n != nil ==> result.X == n.X && result.cnt == n.cnt && (forall k int :: {k in result.keys} k in result.keys <==> k in n.keys) && (forall k int :: {result.rep[k]} k in n.keys ==> result.rep[k] == n.rep[k])
 //@   ensures  [C01] fresh: forall y ref :: {inD(result, y)} inD(result, y) ==> !old(allocated(y))
-//@   ensures  [C01] frame: forall y *node[T] :: {y.left} {y.right} {y.X} {y.keys} {y.desc} old(allocated(y)) ==> sameNode(y)
+//@   ensures  [C01] frame: forall y *node[T] :: {y.left} {y.right} {y.X} {y.keys} {y.desc} {y.cnt} {y.rep} old(allocated(y)) ==> sameNode(y)
 //@   decreases cntOf(n)
 //@   call clone#1: cmp = cmp
 //@   call clone#2: cmp = cmp
@@ -385,7 +385,7 @@ package stree
 //@   ensures  [C01] inv: result != nil && fresh(result) && treeInv(result) && sizeInv(result)
 //@   ensures  [C01] same: result.compare == t.compare && result.size == t.size && (forall k int :: {k in result.elems} k in result.elems <==> k in t.elems) && (forall k int :: {result.vals[k]} k in t.elems ==> result.vals[k] == t.vals[k])
 //@   ensures  [C01] apart: forall y ref :: {inD(result.root, y)} inD(result.root, y) ==> !old(allocated(y))
-//@   ensures  [C01] frame: forall y *node[T] :: {y.left} {y.right} {y.X} {y.keys} {y.desc} old(allocated(y)) ==> sameNode(y)
+//@   ensures  [C01] frame: forall y *node[T] :: {y.left} {y.right} {y.X} {y.keys} {y.desc} {y.cnt} {y.rep} old(allocated(y)) ==> sameNode(y)
 //@   ensures  [C01] original: treeInv(t) && sizeInv(t) && t.root == old(t.root) && t.elems == old(t.elems) && t.vals == old(t.vals)
 //@   call clone#1: cmp = t.compare
 //@   at exit: ghost result.elems = t.elems
